@@ -129,6 +129,10 @@ func (eng *Engine) contractFor(f *ssa.Function) *Contract {
 		if c := eng.cs.Funcs[origin.Pkg.Pkg.Path()+"::"+name]; c != nil {
 			return c
 		}
+		// methods of generic types are written without their type parameters in contract files
+		if c := eng.cs.Funcs[origin.Pkg.Pkg.Path()+"::"+stripTypeParams(name)]; c != nil {
+			return c
+		}
 	} else if origin.Parent() != nil && origin.Parent().Pkg != nil {
 		if c := eng.cs.Funcs[origin.Parent().Pkg.Pkg.Path()+"::"+name]; c != nil {
 			return c
@@ -136,6 +140,9 @@ func (eng *Engine) contractFor(f *ssa.Function) *Contract {
 	}
 	short := shortenPaths(origin.String())
 	if c := eng.cs.Funcs[short]; c != nil {
+		return c
+	}
+	if c := eng.cs.Funcs[stripTypeParams(short)]; c != nil {
 		return c
 	}
 	return nil
@@ -198,14 +205,29 @@ func (eng *Engine) findFunction(pkgPath, name string) *ssa.Function {
 		}
 	}
 	if found == nil {
-		// generic instantiations
-		for f := range ssautil.AllFunctions(eng.prog) {
-			if f.Origin() != nil && f.Pkg == nil && f.Origin().Pkg == pi.SSA && localName(f.Origin()) == name && len(f.Blocks) > 0 {
-				return f
-			}
+		// generic instantiations: the first closed instance in name order
+		if is := eng.findInstances(pkgPath, name); len(is) > 0 {
+			return is[0]
 		}
 	}
 	return found
+}
+
+// findInstances lists the closed instances of the generic function or method called name in
+// package pkgPath, in name order (every one of them is verified against the contract).
+func (eng *Engine) findInstances(pkgPath, name string) []*ssa.Function {
+	pi := eng.pkgs[pkgPath]
+	if pi == nil || pi.SSA == nil {
+		return nil
+	}
+	var out []*ssa.Function
+	for f := range ssautil.AllFunctions(eng.prog) {
+		if f.Origin() != nil && f.Pkg == nil && f.Origin().Pkg == pi.SSA && (localName(f.Origin()) == name || stripTypeParams(localName(f.Origin())) == name) && len(f.Blocks) > 0 && closedInstance(f) {
+			out = append(out, f)
+		}
+	}
+	sort.Slice(out, func(i, j int) bool { return out[i].String() < out[j].String() })
+	return out
 }
 
 func (eng *Engine) importedPkg(pi *PkgInfo, name string) *types.Package {
@@ -502,4 +524,23 @@ func parseUF(s string) (string, []string, string) {
 		}
 	}
 	return name, args, strings.TrimSpace(s[j+1:])
+}
+
+
+// stripTypeParams removes type-parameter lists from a function name:
+// (*compiledRule[O]).Match -> (*compiledRule).Match
+func stripTypeParams(n string) string {
+	var b strings.Builder
+	d := 0
+	for _, c := range n {
+		switch {
+		case c == '[':
+			d++
+		case c == ']':
+			d--
+		case d == 0:
+			b.WriteRune(c)
+		}
+	}
+	return b.String()
 }
